@@ -1,9 +1,9 @@
 import RxVerif.Theorems.C03RefZip
 /-
-C03-REF, sequence_equal (after the repair of F10) — NOT a theorem yet; this file fixes the statement and checks it on
-concrete histories.
+C03-REF, sequence_equal (after the repair of F10): the program, and the statement checked on concrete histories.
+The THEOREM is proved in C03RefSeqEqFinal.lean (`Rx.SeqRef.sequence_equal_refines`, for every `n` and EVERY history).
 
-Model A's `oSequenceEqual` (Machine/Lib.lean) is now a four-layer pipeline per source
+Model A's `oSequenceEqual` (Machine/Lib.lean) is a four-layer pipeline per source
     subject i ─ stdOp kSome ─ oConcat [oJust None] ─┐
                                                     ├─ oZip ─ outer controller (comparison closures) ─ test user
     subject j ─ stdOp kSome ─ oConcat [oJust None] ─┘
@@ -11,22 +11,17 @@ i.e. `2k + 2` StreamControllers whose `finalize` calls nest four deep (the outer
 subscriber, whose teardown finalizes zip's controller, which unsubscribes the `k` concat subscribers, whose teardowns
 finalize the concat controllers, which unsubscribe the map subscribers, ... down to the subjects).
 
-The intended statement, in the shape of the other refinements (`Zip.zip_refines` etc.):
-
     theorem sequence_equal_refines (n : Nat) (H : History) :
       ∃ n0, ∀ fuel, n0 ≤ fuel →
         Agrees (n + 1) (run fuel [prog n H] {})
           (finalFrom sequenceEqual.step (Over.init (n + 1)) H).z.ctl.live (sequenceEqual.run (n + 1) H)
 
-WHAT IS MISSING.  The simulation relations of C03RefBase (`CRef.Rel`) and C03RefGBase (`GRef.Rel`) describe ONE
-controller whose subscriber is the test user's root observer and whose inner observers sit directly on the subjects.
-Here a relation for a TREE of controllers is needed: the subscriber of an inner controller is an inner observer of the
-next one, `unsub_inner` of the outer relation must run the inner controller's `finalize_spec` (a mutual induction
-over the depth of the tree), and `stdOp`/`oConcat` stages need their own step lemmas (the single-stage calculus of
-Theorems/SimBase.lean covers `stdOp` with the test user as subscriber only).  None of this is proved here.
+Proof (files C03RefSeqEq*.lean, namespace `Rx.SeqRef`): a relation for the TREE of controllers.  Each chain
+subject → map → concat → zip-observer is described by nine bits (`CB`: which observers still have callbacks / hooks,
+which registrations remain) so that teardown lemmas hold from ANY partially decayed state; `GRel` is the global
+relation with guards held, `QRel` the quiescent one tied to the `Comb.sequenceEqual` state.
 
-What IS machine-checked: `Comb.sequence_equal_spec` (history machine = list spec, Theorems/C03.lean), and below the
-statement above on concrete histories (logs, status, and the observer count of every subject after every prefix).
+Below: the statement on concrete histories (logs, status, the observer count of every subject after every prefix).
 -/
 namespace Rx.CRef.SequenceEqual
 open Rx.Ref Rx.Comb Rx.CRef
